@@ -132,5 +132,6 @@ Lemma ps_get_covers p n key x : PsInv p -> ps_get p n key = Some x ->
 Proof.
   intros P H. unfold ps_get in H. destruct (zget p key) as [c|] eqn:E; [|discriminate].
   assert (CI : ColInv c) by (eapply P; apply zget_In; exact E).
-  unfold col_get in H. apply zget_In in H. exists c. repeat split; try assumption. destruct CI as [_ C]. eapply C. exact H.
+  unfold col_get in H. apply zget_In in H. exists c. split; [reflexivity|]. split; [exact CI|]. split; [exact H|].
+  destruct CI as [_ C]. eapply C. exact H.
 Qed.
